@@ -183,8 +183,6 @@ class SharedMemoryFileBufferedCollection(FileBufferedCollection):
         See :meth:`~._initialize_data_in_buffer` for details on the data stored
         in the buffer and the integrity checks performed.
         """
-        type(self)._buffered_collections[id(self)] = self
-
         # Since one object could write to the buffer and trigger a flush while
         # another object was found in the buffer and attempts to proceed
         # normally, we have to serialize this whole block. In theory we might
@@ -195,6 +193,8 @@ class SharedMemoryFileBufferedCollection(FileBufferedCollection):
         # dicts are thread-safe because of the GIL. However, it's best not to
         # depend on the thread-safety of built-in containers.
         with self._buffer_lock:
+            type(self)._buffered_collections[id(self)] = self
+
             if self._filename in type(self)._buffer:
                 # Always track all instances pointing to the same data.
 
